@@ -1,7 +1,7 @@
 (* C14 (FIFO clause and the monitor) — Allocator grants waiting memory promptly and in order.
    Only statements; proofs are in GS.AllocFifoProofs (which builds on GS.AllocProofs). *)
 From Coq Require Import List NArith Bool.
-From GS Require Import Base Alloc AllocProofs AllocFifoProofs.
+From GS Require Import Base Alloc AllocProofs AllocFifoProofs AllocOrder AllocOrderProofs.
 Import ListNotations.
 Open Scope N_scope.
 
@@ -70,4 +70,46 @@ Example C14fifo_nonvacuous :
     [ Build_obs [Granted 0] false 3 0 0 [3; 0]; Build_obs [] false 3 2 1 [3; 0];
       Build_obs [] false 3 4 2 [3; 0]; Build_obs [] false 3 5 2 [3; 0];
       Build_obs [Granted 2; Granted 3] false 3 2 1 [1; 2] ] = false.
+Proof. vm_compute. repeat split. Qed.
+
+(* ---- which eligible head a grant takes (cross-peer order) ---------------------------------- *)
+(* The stronger monitor [monitor_C14x] (AllocOrder.v) is [monitor_C14] plus: when an outcome
+   [Granted t] of a release / release-peer call is applied (outcomes of one call sorted by ticket),
+   t is the smallest ticket among the waiting queue heads that fit their own peer's limit at that
+   moment (peers other than the one being released) — no earlier-requested eligible waiting
+   allocation is passed over.  It accepts EVERY history of the model; no side condition. *)
+Theorem C14_monitor_x : forall mt mp univ ops,
+  monitor_C14x mt mp ops (fst (run univ (init mt mp) ops)) = true.
+Proof. exact c14_monitor_x. Qed.
+Print Assumptions C14_monitor_x.
+
+(* In every release / release-peer call from every reachable state: whatever is still waiting at the
+   head of its peer's queue after the call and fits its own peer's limit was requested later than
+   every allocation the call granted.  So no waiting allocation is granted while an
+   earlier-requested waiting allocation of ANY peer that fits its own peer's limit is left waiting. *)
+Theorem C14_no_pass_over : forall mt mp ops o,
+  let s := final (init mt mp) ops in
+  match o with
+  | OAlloc _ _ => True
+  | _ => let '(s', outs, err, ok) := step s o in
+         forall t, In (Granted t) outs ->
+         forall q hq r, waiting_of s' q = hq :: r ->
+           fits (alloc_of s' q) (p_amt hq) (max_peer s') = true -> t < p_tkt hq
+  end.
+Proof. exact c14_no_pass_over. Qed.
+Print Assumptions C14_no_pass_over.
+
+(* Non-vacuity / discrimination: peer 3 holds everything; a1 (ticket 1, peer 1), b1 (ticket 2,
+   peer 2), a2 (ticket 3, peer 1) wait in this request order; the release frees room for exactly two.
+   The model grants a1 and b1.  A history that grants a1 and a2 and leaves b1 waiting (a2 overtakes
+   the earlier-requested eligible b1; the post-state is stable because b1 no longer fits) is
+   accepted by [monitor_C14] and rejected by [monitor_C14x]. *)
+Example C14x_rejects_passing_over :
+  let ops := [OAlloc 3 4; OAlloc 1 2; OAlloc 2 2; OAlloc 1 2; ORelease 3 4] in
+  let bad := [ Build_obs [Granted 0] false 4 0 0 [0; 0; 4]; Build_obs [] false 4 2 1 [0; 0; 4];
+               Build_obs [] false 4 4 2 [0; 0; 4]; Build_obs [] false 4 6 2 [0; 0; 4];
+               Build_obs [Granted 1; Granted 3] false 4 2 1 [4; 0; 0] ] in
+  map o_outs (fst (run [1; 2; 3] (init 4 4) ops)) = [[Granted 0]; []; []; []; [Granted 1; Granted 2]] /\
+  monitor_C14x 4 4 ops (fst (run [1; 2; 3] (init 4 4) ops)) = true /\
+  monitor_C14 4 4 ops bad = true /\ monitor_C14x 4 4 ops bad = false.
 Proof. vm_compute. repeat split. Qed.
